@@ -540,7 +540,9 @@ fn declare(
 			};
 			unsafe { LLVMSetLinkage(function, linkage) };
 
+			// The entry point is called from outside, like an extern function.
 			let callconv = if flags.contains(DeclarationFlag::External)
+				|| flags.contains(DeclarationFlag::Main)
 			{
 				LLVMCallConv::LLVMCCallConv
 			}
@@ -1287,13 +1289,18 @@ impl Generatable for Expression
 				let mut arguments: Vec<LLVMValueRef> = arguments?;
 
 				let result = unsafe {
-					LLVMBuildCall(
+					let call = LLVMBuildCall(
 						llvm.builder,
 						function,
 						arguments.as_mut_ptr(),
 						arguments.len() as u32,
 						cstr!(""),
-					)
+					);
+					// A call has to use the calling convention of its callee,
+					// or its behavior is undefined.
+					let callconv = LLVMGetFunctionCallConv(function);
+					LLVMSetInstructionCallConv(call, callconv);
+					call
 				};
 				Ok(result)
 			}
